@@ -34,8 +34,9 @@ type Contract struct {
 	Strings     string // order | smt
 	Requires    []*Clause
 	Ensures     []*Clause
-	AssumedPre  []*Clause // `assumes_pre`: preconditions assumed for the body, NOT checked at call sites (reported as assumptions)
-	Assumed     []*Clause // `assumes_post`: postconditions assumed at call sites, NOT proved for the body (reported as assumptions)
+	Splits      []*SplitSpec // complete case splits: one VC per combination of cases
+	AssumedPre  []*Clause    // `assumes_pre`: preconditions assumed for the body, NOT checked at call sites (reported as assumptions)
+	Assumed     []*Clause    // `assumes_post`: postconditions assumed at call sites, NOT proved for the body (reported as assumptions)
 	PanicsIff   *Clause
 	MayPanic    *Clause // may_panic_only_if
 	NoPanic     bool
@@ -78,6 +79,15 @@ type SpecFunc struct {
 	Line      int
 }
 
+// SplitSpec is `split <int expr> in lo..hi [quick v1,v2,...]`: the cases expr == lo, ...,
+// expr == hi, expr < lo and expr > hi are verified separately (together they are
+// exhaustive by construction); in the quick tier only the listed values are run.
+type SplitSpec struct {
+	Expr   *Clause
+	Lo, Hi int64
+	Quick  []int64
+}
+
 type Lemma struct {
 	Pkg      string
 	Name     string
@@ -109,6 +119,7 @@ func newContractSet() *ContractSet {
 }
 
 var (
+	reSplit     = regexp.MustCompile(`^(.*)\s+in\s+(-?\d+)\.\.(-?\d+)(?:\s+quick\s+([-\d,\s]+))?$`)
 	reFuncHdr   = regexp.MustCompile(`^func\s+(?:\(\s*(?:\w+\s+)?\*?([\w./]+)\s*\)\s*\.?\s*)?([\w.]+)(?:\[[^\]]*\])?\s*$`)
 	reExternHdr = regexp.MustCompile(`^extern\s+func\s+(?:\(\s*\*?([\w./\-]+)\s*\)\s*\.\s*)?([\w./\-]+)\s*$`)
 	reSpecHdr   = regexp.MustCompile(`^spec\s+func\s+(\w+)\s*\(([^)]*)\)\s*([\w\[\]*.]+)\s*=\s*(.*)$`)
@@ -347,6 +358,26 @@ func (cs *ContractSet) loadContractFile(path, defaultPkg string) error {
 		case "ensures":
 			cur.Ensures = append(cur.Ensures, mk(rest))
 			lastClause = &cur.Ensures[len(cur.Ensures)-1]
+		case "split":
+			// split <expr> in lo..hi [quick a,b,c]
+			m := reSplit.FindStringSubmatch(rest)
+			if m == nil {
+				return fmt.Errorf("%s:%d: expected `split <expr> in <lo>..<hi> [quick v,...]`", path, ln)
+			}
+			lo, _ := strconv.ParseInt(m[2], 10, 64)
+			hi, _ := strconv.ParseInt(m[3], 10, 64)
+			sp := &SplitSpec{Expr: mk(strings.TrimSpace(m[1])), Lo: lo, Hi: hi}
+			for _, q := range strings.Split(m[4], ",") {
+				if q = strings.TrimSpace(q); q != "" {
+					v, err := strconv.ParseInt(q, 10, 64)
+					if err != nil {
+						return fmt.Errorf("%s:%d: bad quick value %q", path, ln, q)
+					}
+					sp.Quick = append(sp.Quick, v)
+				}
+			}
+			cur.Splits = append(cur.Splits, sp)
+			lastClause = nil
 		case "assumes_pre":
 			cur.AssumedPre = append(cur.AssumedPre, mk(rest))
 			lastClause = &cur.AssumedPre[len(cur.AssumedPre)-1]
@@ -526,6 +557,11 @@ func (cs *ContractSet) parseAll() error {
 	for _, c := range cs.Funcs {
 		for _, l := range [][]*Clause{c.Requires, c.AssumedPre, c.Ensures, c.Assumed, c.OnPanic, c.Assigns, {c.PanicsIff, c.MayPanic, c.Decreases}} {
 			if err := pcs(l); err != nil {
+				return err
+			}
+		}
+		for _, sp := range c.Splits {
+			if err := pc(sp.Expr); err != nil {
 				return err
 			}
 		}
